@@ -594,7 +594,9 @@ impl ValueMeta for Expression {
                 None => false,
             },
             Number(meta, value) => {
-                let value = FieldElement { value: value.clone() };
+                // A literal denotes its residue: reduce it before it reaches the
+                // field operations, which expect canonical operands.
+                let value = FieldElement { value: &*value % env.prime() };
                 meta.value_knowledge_mut().set_reduces_to(value)
             }
             Call { args, .. } => {
